@@ -61,6 +61,11 @@ class FlowGen(object):
             # (the operand is often negative with a fraction: INT rounds down there, -1.5 gives -2)
             half = lambda e: ("fn", "INT", [("bin", "/", ("par", ("bin", "-", e, n(3))), n(2))])      # noqa: E731
             return ("bin", r.choice(["=", "<>", "<", ">"]), half(a), ("bin", "+", half(b), n(r.randint(0, 1))))
+        if x > 0.93:
+            # the branch is steered by FIX of a value with a fraction of .5 and more, of either sign (FIX cuts the
+            # fraction off: FIX(2.7) = 2, FIX(-1.5) = -1)
+            f_ = r.choice([("num", 1.5, ["1.5"]), ("num", 0.9, [".9"]), ("num", 2.7, ["2.7"])])
+            return ("bin", r.choice(["=", "<>", "<", ">"]), ("fn", "FIX", [("bin", "*", ("par", ("bin", "-", a, n(r.randint(0, 3)))), f_)]), n(r.randint(-2, 4)))
         if x < 0.15:
             c2 = ("bin", r.choice(["=", "<", ">"]), ("var", r.choice(VARS)), n(r.randint(0, 4)))
             return ("bin", r.choice(["AND", "OR"]), c, c2)
@@ -215,6 +220,9 @@ class FlowGen(object):
                 pre = [("let", ("var", sv), ("bin", "+", ("var", sv), n(1)), False)]
             elif y < 0.5:
                 sel = ("bin", "+", ("fn", "INT", [("var", sv)]), n(0))
+            elif y > 0.9:
+                # FIX of a value with a fraction of .5 and more picks the target below, not the one above
+                sel = ("fn", "FIX", [("bin", "*", ("var", sv), r.choice([("num", 0.9, [".9"]), ("num", 1.5, ["1.5"]), ("num", 0.75, [".75"])]))])
             elif y < 0.62:
                 # two calls in the selector, the second one worth 0: sharing a temporary would select nothing
                 sel = ("bin", "+", ("fn", "INT", [("var", sv)]), ("fn", "INT", [("num", 0.5, [".5"])]))
@@ -303,6 +311,9 @@ class FlowGen(object):
             # both bounds through a run-translated call (INT(lo.5) = lo): two temporaries in one FOR statement
             a = ("fn", "INT", [("num", a[1] + 0.5, ["%d.5" % a[1]])])
             b = ("fn", "INT", [("num", b[1] + 0.5, ["%d.5" % b[1]])])
+        elif not neg and b[0] == "num" and r.random() < 0.1:
+            # the limit through FIX of hi.7: one pass fewer than rounding would give
+            b = ("fn", "FIX", [("num", b[1] + 0.7, ["%d.7" % b[1]])])
         y = r.random()
         if y < 0.08:
             # the control variable is read before its FOR has run, by a subroutine that stands after the loop in the text
